@@ -191,6 +191,26 @@ func checkC11(c *Ctx, r *Report) {
 		}
 		cmp("reads", fl30, fl31, func(s string) string { return s })
 		cmp("calls", cl30, cl31, normEmitterCall)
+		// the siblings set the same schema keywords: a keyword one emitter writes in a function
+		// whose sibling does not (a bound added at another layer, a description set on one side
+		// only) gives the two documents different constraints for the same declaration
+		{
+			w30, w31 := w.schemaKeywordWrites(f30), w.schemaKeywordWrites(f31)
+			for k, pos := range w30 {
+				if _, ok := w31[k]; !ok {
+					if _, tabled := dt.Only30[key]["write:"+k]; !tabled {
+						viol = fmt.Sprintf("%s: 3.0 %s sets the schema keyword %s, the 3.1 sibling %s does not: the two documents constrain the same declaration differently", pos, pr[0], k, pr[1])
+					}
+				}
+			}
+			for k, pos := range w31 {
+				if _, ok := w30[k]; !ok {
+					if _, tabled := dt.Only31[key]["write:"+k]; !tabled {
+						viol = fmt.Sprintf("%s: 3.1 %s sets the schema keyword %s, the 3.0 sibling %s does not: the two documents constrain the same declaration differently", pos, pr[1], k, pr[0])
+					}
+				}
+			}
+		}
 		// the siblings do their common steps in the same order: where two steps write the same
 		// place (components keyed by bare type name, responses keyed by status code) the later
 		// one wins, so a different order is a different document
@@ -1132,6 +1152,64 @@ func (w *World) emitterStepOrder(fi *FuncInfo, ownPkg string) []string {
 	out := make([]string, len(steps))
 	for i, st := range steps {
 		out[i] = st.name
+	}
+	return out
+}
+
+// schemaKeywordWrites: the keywords of an OpenAPI schema object (kin-openapi Schema, libopenapi
+// base.Schema) that fi - with the new helpers it calls - assigns, by dialect-neutral name.
+func (w *World) schemaKeywordWrites(fi *FuncInfo) map[string]string {
+	out := map[string]string{}
+	for _, rf := range w.astRegion(fi) {
+		rf := rf
+		if rf.Decl.Body == nil {
+			continue
+		}
+		info := rf.Pkg.TypesInfo
+		isSchema := func(e ast.Expr) bool {
+			t := info.TypeOf(e)
+			if t == nil {
+				return false
+			}
+			ts := types.TypeString(t, nil)
+			return strings.HasSuffix(ts, "openapi3.Schema") || strings.HasSuffix(ts, "high/base.Schema")
+		}
+		record := func(name string, pos token.Pos) {
+			// constraint and annotation keywords only: containers (properties, allOf, items, required)
+			// are built differently by the two object models
+			k := ""
+			if m, ok := targetKind[name]; ok {
+				k = m
+			} else if name == "Description" || name == "Deprecated" || name == "Nullable" || name == "Default" || name == "Example" || name == "ReadOnly" || name == "WriteOnly" {
+				k = strings.ToLower(name)
+			} else {
+				return
+			}
+			if _, seen := out[k]; !seen {
+				out[k] = w.pos(pos)
+			}
+		}
+		ast.Inspect(rf.Decl.Body, func(n ast.Node) bool {
+			switch x := n.(type) {
+			case *ast.AssignStmt:
+				for _, l := range x.Lhs {
+					if se, ok := l.(*ast.SelectorExpr); ok && isSchema(se.X) {
+						record(se.Sel.Name, se.Pos())
+					}
+				}
+			case *ast.CompositeLit:
+				if isSchema(x) || (func() bool { t := info.TypeOf(x); return t != nil && (strings.HasSuffix(types.TypeString(t, nil), "openapi3.Schema") || strings.HasSuffix(types.TypeString(t, nil), "high/base.Schema")) })() {
+					for _, el := range x.Elts {
+						if kv, ok := el.(*ast.KeyValueExpr); ok {
+							if id, ok := kv.Key.(*ast.Ident); ok {
+								record(id.Name, kv.Pos())
+							}
+						}
+					}
+				}
+			}
+			return true
+		})
 	}
 	return out
 }
